@@ -321,7 +321,8 @@ RULES = [("Unconnected input", "unconnected"), ("Can't connect a static input", 
          ("A component was coupled, but not added to this Composition. Affected outputs", "missing_out")]
 
 
-def run_impl(case):
+def build_objects(case):
+    """the real components, slots and adapters of a case, linked; returns (composition, comps, objs by position, created links, log)"""
     log = []
     comps = []
     for c, cs in enumerate(case["comps"]):
@@ -354,6 +355,11 @@ def run_impl(case):
     for r, t in enumerate(case["trees"]):
         rec(t, [r])
     log.clear()
+    return composition, comps, objs, created, log
+
+
+def run_impl(case):
+    composition, comps, objs, created, log = build_objects(case)
     has_time = any(case["comps"][c]["timed"] for c in case["order"])
     res = {"error": None, "rule": None, "msg": None, "links": None, "pre_exchange": None}
     try:
